@@ -198,6 +198,19 @@ CHECKS = {
              "accepted. Two defects found and repaired (short-way distance, mixed-convention bbox).",
         technique="TLA+ selection model on abstract sphere positions + TLC invariants + replay of every state",
         ref="§4 C14", engine="tlc"),
+    "C15": dict(
+        text="Construct.tla models the algebra the constructors apply to any non-negative shape and spreading table (scaling by "
+             "h^2/Hs^2 with the accessor's Hs and tail rule, cartwright's normalisation, outer product); TLC checks on every small "
+             "integer table that Hs(Scaled) = h exactly, non-negativity, unit integral of the normalised spreading on a full-circle "
+             "uniform grid, product integrates back to the shape, symmetric table has no odd part about its axis; it also enumerates "
+             "the parameter lattice whose cases the harness realises on the real constructors, evaluating: scaled = unscaled*h^2/Hs^2, "
+             "measured Hs, JONSWAP(gamma=1)=PM, TMA(deep)=JONSWAP, spreading integral, oned(2D)=shape, measured dm/dspr, ascending / "
+             "descending / rolled direction storage, scalar and DataArray parameters.",
+        note="The transcendental shapes are beyond TLC: for them the spec supplies the case enumeration and the relations, the harness "
+             "evaluates them in floating point against the requested parameters. Measured dm/dspr are demanded exactly only for integer "
+             "spreading exponents with s+1 < n; under-resolved spreadings are not compared.",
+        technique="TLA+ algebra of scaling/normalisation + TLC on integer tables; TLC-enumerated parameter lattice realised on the code",
+        ref="§4 C15", engine="tlc"),
 }
 
 NOT_YET = "check not yet built in this round (see DESIGN.md §4 for the planned TLA+ model); not claimed"
